@@ -122,6 +122,8 @@ func runC07(r *engine.Run) {
 	r.Rule("CLONE-deep", "for every repo type implementing statecache.Value, Clone() does not return the receiver or anything sharing a reference with it: accepted forms are the codec copy (CreateNode over the receiver's Encode()) or a type without reference fields; CopyFrom stores only what it obtained through Clone()")
 	r.Rule("DOM-writekept", "see C06: a write or removal handed to a cache layer (TransactionCache.Set/Remove, BlockCache.Set/setValue/remove) is recorded in that layer's pending map on every feasible path to every return (a store under the key parameter), and these methods never delete from the pending map: a dropped tombstone lets an ancestor's value show through (commit visibility: what a transaction commits is what the block, and after the block's commit its descendants, return)")
 	r.Rule("WHO-readonly", "see C06: lookups never store into a pending map - a pending map is the write set that Commit publishes, so a memoised read would be committed as a write and overwrite what another transaction committed in between (writes are private until commit, and only writes are committed)")
+	r.Rule("DOM-commit", "StateCache.commit adds the block's entries to the per-key versions maps and publishes the block's link (commitRound stores it); it returns before doing so only where the lookup of the block's own link hit (already committed)")
+	r.Rule("KEY-same", "see C06: entries are stored under the key and block hash they belong to, tombstone arms store deleted=true, a transaction's commit forwards its own pairs")
 	r.NotDec = append(r.NotDec, "after commit the committed values are what descendant lookups return (value-level; see C06)")
 	cloneBoundary(r, "C07")
 	cloneLinear(r)
@@ -129,6 +131,8 @@ func runC07(r *engine.Run) {
 	cloneDeep(r)
 	domWriteKept(r, "DOM-writekept")
 	whoReadOnly(r, "WHO-readonly")
+	domCommitReached(r, "DOM-commit")
+	keySame(r)
 }
 
 // cloneBoundary checks every sink in package statecache.
